@@ -32,7 +32,7 @@ ASSUMPTIONS = ["shares f in {1/2,1/4,1/8} (f and 1/(2f) both dyadic) are exact i
                "candidate list (write-in) appears only on ballots with no mark for a listed candidate, so that no "
                "reading of 'valid vote' is imposed on the code"]
 N_CASES = {"quick": 96000, "thorough": 768000}
-TRUTHY = (True, 1, "x", 5, "marked", 2.5, float("nan"), -1, (0,), [0])   # Python truthiness: NaN, negative numbers and non-empty containers are marks
+TRUTHY = (True, 1, "x", 5, "marked", 2.5, float("nan"), -1, (0,), [0], "0", "False", " ")   # Python truthiness: NaN, negative numbers and non-empty containers are marks
 FALSY = (False, 0, "", None, 0.0, (), [])
 CANDS = ["A", "B", "C", "D", "E", "F"]
 WRITE_INS = ["W/I", "Dan"]
